@@ -64,12 +64,7 @@ func (r Int32) MAX(a, b Int32) Scalar {
 }
 /* -------------------------------------------------------------------------- */
 func (c Int32) ABS(a Int32) Scalar {
-  if c.Sign() == -1 {
-    c.NEG(a)
-  } else {
-    c.SET(a)
-  }
-  return c
+  return c.Abs(a)
 }
 /* -------------------------------------------------------------------------- */
 func (c Int32) NEG(a Int32) Int32 {
